@@ -10,7 +10,10 @@ for f in sys.argv[1:]:
 out=["# Seeded changes versus the quick checks\n",
 "Every seeded change was written by an independent sub-agent that saw only the text of one property and a scratch worktree,",
 "was confirmed by the builder in a scratch worktree (demonstration passes on the clean tree, fails with the patch; pinned suite",
-"still passes with the patch), then applied to a copy of the repository and run against all twenty quick checks.\n",
+"still passes with the patch), then applied to a copy of the repository (`vp run --with-repo`, snapshots) and run against the quick",
+"checks: the changes of the first rounds against all twenty checks (cross matrix, `tools/matrix.sh`), every change against the",
+"check of its own property after every round (`tools/matrix_own.sh`; the logs are in `seeded/logs/`, later logs override earlier",
+"ones per seed, so a row shows the latest run that included the seed).\n",
 "| seed | target | what was changed | caught by | own check catches it |","|---|---|---|---|---|"]
 miss=[]
 for d in sorted(glob.glob('/verif/seeded/C*_*')):
